@@ -226,6 +226,8 @@ SPxLeastSqSC<R>& SPxLeastSqSC<R>::operator=(const SPxLeastSqSC<R>& rhs)
    if(this != &rhs)
    {
       SPxScaler<R>::operator=(rhs);
+      acrcydivisor = rhs.acrcydivisor;
+      maxrounds = rhs.maxrounds;
    }
 
    return *this;
